@@ -439,7 +439,12 @@ let emit (st : gst) (h : hop) : int option =
   if over st then None
   else
     match apply st.g h with
-    | VReject _ -> misc "proposals_rejected_by_model"; None
+    | VReject why ->
+      misc "proposals_rejected_by_model";
+      (* never expected: the mark ran out of fuel / read an object through the wrong accessor *)
+      if why = "fuel" then misc "model_fuel";
+      if why = "bad" then misc "model_bad";
+      None
     | VOom ->
       st.nops <- st.nops + 1;
       let text = render h ^ " !oom" in
